@@ -6,6 +6,7 @@ NEP-50 overflow rule (narrow NumPy integers meeting out-of-range Python int
 constants), schema-enum totality, raise-class discipline and the CLI's
 VelaError handler. Totality over all models is not decided."""
 import ast
+import re as _re
 import re
 import builtins
 import symtable
@@ -96,6 +97,8 @@ def run(repo, rep):
     rule_cpu_pass_move(repo, rep)
     rep.clause("C13-aj", "chain merges (pre -> mid -> post into mid) go ahead only if each tensor in between has exactly one consumer")
     rule_chain_merge_consumers(repo, rep)
+    rep.clause("C13-am", "sizes of -1 ('the rest') are resolved in every branch of get_split_inputs_axis that turns sizes into offsets")
+    rule_size_minus_one(repo, rep)
     rep.clause("C13-al", "optional string members of option tables are written only when present (None excluded before CreateString)")
     rule_optional_strings(repo, rep)
     rep.clause("C13-ak", "elements of tensor consumer lists (None marks a subgraph output) are dereferenced only under a None test")
@@ -2237,3 +2240,36 @@ def rule_optional_strings(repo, rep):
                       f"`{t}` may be None (the member is absent in the source model): TypeError 'non-string passed to CreateString' (VAR_HANDLE with shared_name but no container)")
     if n < 1:
         raise AnalysisError("tflite_writer: no option string is handed to CreateString")
+
+
+def rule_size_minus_one(repo, rep):
+    """(am) SLICE and SPLIT_V take sizes in which -1 means 'the rest of the dimension'. Operation.get_split_inputs_axis turns sizes into
+    end offsets; every place that does arithmetic on a value read from a size operand (`size_tens.values[..]`, or a local bound to it)
+    is in a function region that also compares that value with -1 - the SPLIT_V branch does, the SLICE branch must (end = begin - 1 makes
+    Box.__init__ assert)."""
+    opm = repo.mod("operation")
+    f = opm.func("Operation.get_split_inputs_axis")
+    site = "ethosu/vela/operation.py:Operation.get_split_inputs_axis"
+    n = 0
+    # branches of the if / elif chain over self.type
+    for br in ast.walk(f):
+        if not (isinstance(br, ast.If) and "self.type" in str(norm(br.test))):
+            continue
+        body = ast.Module(body=br.body, type_ignores=[])
+        size_names = {a.targets[0].id for a in ast.walk(body) if isinstance(a, ast.Assign) and len(a.targets) == 1 and isinstance(a.targets[0], ast.Name) and "size" in a.targets[0].id and ".values" in str(norm(a.value))}
+        size_names |= {t.id for a in ast.walk(body) if isinstance(a, ast.Assign) and isinstance(a.targets[0], ast.Tuple) for t in a.targets[0].elts if isinstance(t, ast.Name) and "size" in t.id}
+        uses = []
+        for x in ast.walk(body):
+            if isinstance(x, ast.BinOp) and isinstance(x.op, (ast.Add, ast.Sub)):
+                t = str(norm(x))
+                if any(_re.search(rf"\b{nm}\b(\.values)?\[", t) for nm in size_names):
+                    uses.append(x)
+        if not uses:
+            continue
+        n += 1
+        txt = " ".join(str(norm(c)) for c in ast.walk(body) if isinstance(c, ast.Compare))
+        handled = "== -1" in txt or "< 0" in txt or "-1 ==" in txt
+        rep.check(handled, "C13-am", site, f"branch `{str(norm(br.test))[:50]}`: a size of -1 (rest of the dimension) is resolved before it enters the offset arithmetic",
+                  f"`{str(norm(uses[0]))[:70]}` uses the size as it is: SLICE with begin 2 and size -1 gets end offset 1 < begin: AssertionError in Box.__init__ (start <= end)")
+    if n < 1:
+        raise AnalysisError("get_split_inputs_axis: no branch does arithmetic on a size operand")
